@@ -20,3 +20,5 @@ def run(ctx):
     l6 = ctx.rule("L6", "prerequisites delay execution: incomplete dependencies are listed, translated to ids and reach the scheduler", min_instances=10)
     import_rules(ctx, l6, "C02", only={"R2", "R3", "R5"})
     import_rules(ctx, l6, "C07", only={"R1", "R3"})
+    l7 = ctx.rule("L7", "with spec hashing on, the record made by an accepted submission is the one the next invocation computes for the unchanged target, and it survives the invocation (spec clause of C01)", min_instances=3)
+    import_rules(ctx, l7, "C01", only={"R7"})
